@@ -80,17 +80,68 @@ theorem step_invP_notifyAll (s s' : St) (t : Nat) (l : List Nat) (hA : Inv s) (h
         exact h12 u this
       · exact h12 u hu
 
+theorem step_invM_notifyAll (s s' : St) (t : Nat) (l : List Nat) (hA : Inv s) (hi : InvM s)
+    (h : step s (.notifyAll t l) = some s') : InvM s' := by
+  simp only [step] at h
+  split at h
+  case isFalse => simp at h
+  rename_i hg
+  obtain ⟨htn, hl, hq⟩ := hg
+  split at h
+  case h_2 => simp at h
+  rename_i c hpc
+  simp only [Option.some.injEq] at h
+  subst h
+  refine ⟨?_⟩
+  dsimp only
+  · intro u c' hu hf
+    exfalso
+    by_cases hut : u = t
+    · subst hut; simp [upd] at hu
+    · simp only [upd, hut, if_false] at hu
+      have hpu : s.pc u = .wMustEnq c' := by
+        split at hu
+        · cases hp : s.pc u <;> simp [hp, popd] at hu ⊢
+          exact hu
+        · exact hu
+      have := hA.lockHolder u (by rw [hpu]; rfl)
+      rw [hl] at this
+      simp at this
+      exact hut this.symm
 
-theorem step_invP (s s' : St) (e : Ev) (hA : Inv s) (hi : InvP s) (h : step s e = some s') : InvP s' := by
+
+
+theorem step_invM (s s' : St) (e : Ev) (hA : Inv s) (hi : InvM s) (h : step s e = some s') : InvM s' := by
+  cases e with
+  | inv t o => exact step_invM_inv s s' t o hA hi h
+  | ret t r => exact step_invM_ret s s' t r hA hi h
+  | slAcq t => exact step_invM_slAcq s s' t hA hi h
+  | slRel t => exact step_invM_slRel s s' t hA hi h
+  | evLoad t v => exact step_invM_evLoad s s' t v hA hi h
+  | evLoadL t v => exact step_invM_evLoadL s s' t v hA hi h
+  | stored t v => exact step_invM_stored s s' t v hA hi h
+  | cvEnq t z => exact step_invM_cvEnq s s' t z hA hi h
+  | notifyAll t l => exact step_invM_notifyAll s s' t l hA hi h
+  | cvWoke t a => exact step_invM_cvWoke s s' t a hA hi h
+  | suspend t => exact step_invM_suspend s s' t hA hi h
+  | woke t => exact step_invM_woke s s' t hA hi h
+  | onceLoad t => exact step_invM_onceLoad s s' t hA hi h
+  | onceWon t => exact step_invM_onceWon s s' t hA hi h
+  | onceLost t a => exact step_invM_onceLost s s' t a hA hi h
+  | body t a => exact step_invM_body s s' t a hA hi h
+  | onceStored t a => exact step_invM_onceStored s s' t a hA hi h
+  | done t => exact step_invM_done s s' t hA hi h
+
+theorem step_invP (s s' : St) (e : Ev) (hA : Inv s) (hM : InvM s) (hi : InvP s) (h : step s e = some s') : InvP s' := by
   cases e with
   | inv t o => exact step_invP_inv s s' t o hA hi h
   | ret t r => exact step_invP_ret s s' t r hA hi h
   | slAcq t => exact step_invP_slAcq s s' t hA hi h
   | slRel t => exact step_invP_slRel s s' t hA hi h
   | evLoad t v => exact step_invP_evLoad s s' t v hA hi h
-  | evPass t v => exact step_invP_evPass s s' t v hA hi h
+  | evLoadL t v => exact step_invP_evLoadL s s' t v hA hi h
   | stored t v => exact step_invP_stored s s' t v hA hi h
-  | cvEnq t z => exact step_invP_cvEnq s s' t z hA hi h
+  | cvEnq t z => exact step_invP_cvEnq s s' t z hA hM hi h
   | notifyAll t l => exact step_invP_notifyAll s s' t l hA hi h
   | cvWoke t a => exact step_invP_cvWoke s s' t a hA hi h
   | suspend t => exact step_invP_suspend s s' t hA hi h
@@ -102,9 +153,10 @@ theorem step_invP (s s' : St) (e : Ev) (hA : Inv s) (hi : InvP s) (h : step s e 
   | onceStored t a => exact step_invP_onceStored s s' t a hA hi h
   | done t => exact step_invP_done s s' t hA hi h
 
-theorem inv_of_accepted {n : Nat} {log : List Ev} {s : St}
-    (h : runLog step (init n) log = some s) : Inv s ∧ InvP s := by
-  have : ∀ (log : List Ev) (s0 s : St), Inv s0 ∧ InvP s0 → runLog step s0 log = some s → Inv s ∧ InvP s := by
+theorem inv_of_accepted' {n : Nat} {log : List Ev} {s : St}
+    (h : runLog step (init n) log = some s) : Inv s ∧ InvM s ∧ InvP s := by
+  have : ∀ (log : List Ev) (s0 s : St), Inv s0 ∧ InvM s0 ∧ InvP s0 → runLog step s0 log = some s →
+      Inv s ∧ InvM s ∧ InvP s := by
     intro log
     induction log with
     | nil => intro s0 s h0 h; simp at h; exact h ▸ h0
@@ -115,7 +167,12 @@ theorem inv_of_accepted {n : Nat} {log : List Ev} {s : St}
       | none => simp [hs] at h
       | some s1 =>
         simp only [hs] at h
-        exact ih s1 s ⟨step_inv s0 s1 e h0.1 hs, step_invP s0 s1 e h0.1 h0.2 hs⟩ h
-  exact this log _ s ⟨inv_init n, invP_init n⟩ h
+        exact ih s1 s ⟨step_inv s0 s1 e h0.1 hs, step_invM s0 s1 e h0.1 h0.2.1 hs,
+          step_invP s0 s1 e h0.1 h0.2.1 h0.2.2 hs⟩ h
+  exact this log _ s ⟨inv_init n, invM_init n, invP_init n⟩ h
+
+theorem inv_of_accepted {n : Nat} {log : List Ev} {s : St}
+    (h : runLog step (init n) log = some s) : Inv s ∧ InvP s :=
+  ⟨(inv_of_accepted' h).1, (inv_of_accepted' h).2.2⟩
 
 end PikaVerif.Once
